@@ -297,6 +297,21 @@ func c02WorkerMain(script string) {
 				if err := os.WriteFile(p, b, 0o644); err != nil {
 					res = "err " + err.Error()
 				}
+			case "cut":
+				// tear the tail of the main file: drop its last N bytes
+				n, _ := strconv.ParseInt(f[1], 10, 64)
+				p := filepath.Join(dir, "sw.hyd")
+				if st, err := os.Stat(p); err == nil {
+					sz := st.Size() - n
+					if sz < 0 {
+						sz = 0
+					}
+					if err := os.Truncate(p, sz); err != nil {
+						res = "err " + err.Error()
+					} else {
+						res = "ok size=" + strconv.FormatInt(sz, 10)
+					}
+				}
 			case "fsize":
 				// RLIMIT_FSIZE soft limit (0 = unlimited again)
 				lim, _ := strconv.ParseUint(f[1], 10, 64)
@@ -1123,12 +1138,23 @@ func c02TraceCases(cases []c02CaseIn, extraStrace []string) ([]c02CaseOut, error
 			outs[refs[n].ci].Cmds[refs[n].ki].Res = f[2]
 		}
 	}
+	for ci := range outs {
+		for j := range outs[ci].Cmds {
+			co := &outs[ci].Cmds[j]
+			if strings.HasPrefix(co.Text, "cut ") {
+				if k := strings.Index(co.Res, "size="); k >= 0 {
+					n, _ := strconv.ParseInt(co.Res[k+5:], 10, 64)
+					co.Plant = []c02Sys{{Cmd: -1, Op: "trunc", Path: "main", Off: n, Res: "ok", Kind: "plant"}}
+				}
+			}
+		}
+	}
 	for _, s := range sys {
 		if s.Cmd < 0 || s.Cmd >= len(refs) || refs[s.Cmd].ki < 0 {
 			continue
 		}
 		co := &outs[refs[s.Cmd].ci].Cmds[refs[s.Cmd].ki]
-		if strings.HasPrefix(co.Text, "plant ") {
+		if strings.HasPrefix(co.Text, "plant ") || strings.HasPrefix(co.Text, "cut ") {
 			continue // the worker's own WriteFile; represented by the pseudo-operations
 		}
 		co.Sys = append(co.Sys, s)
@@ -1236,8 +1262,8 @@ func c02HasTempCreateOrWrite(sys []c02Sys) bool {
 
 func c02LastSync(ops []c02Sys, i int) int {
 	for m := i - 1; m >= 0; m-- {
-		if ops[m].Op == "sync" && ops[m].Res == "ok" {
-			return m + 1
+		if (ops[m].Op == "sync" && ops[m].Res == "ok") || ops[m].Cmd == -1 {
+			return m + 1 // planted files / hand-made cuts are set-up, not part of the crashable history
 		}
 	}
 	return 0
@@ -1438,7 +1464,7 @@ func c02EmitCase(w *bufio.Writer, co c02CaseOut, imgFor func(ki int, c c02CmdOut
 			} else {
 				fmt.Fprintln(w, "act load - "+st)
 			}
-		case "plant", "live", "fsize", "fsizeplus":
+		case "plant", "live", "fsize", "fsizeplus", "cut":
 		default:
 			fmt.Fprintln(w, "act "+c.Text)
 		}
